@@ -45,6 +45,22 @@ fn check_point(base: &Base, sc: &Scenario, cx: &Cx, key: &Key, torn: bool, n: &m
         check_restore(w, cx, &Sel::Band(id), t, 0, "C03/previous-version", n)?;
     }
 
+    // (2b) ... and the default selection (latest complete version) is still the newest of them,
+    // unless the interrupted run got as far as creating its tail
+    let tail_exists = post
+        .bands
+        .keys()
+        .copied()
+        .max()
+        .filter(|m| prev_last.map_or(true, |p| *m > p))
+        .map(|m| !post.bands[&m].tail.is_absent())
+        .unwrap_or(false);
+    if !tail_exists {
+        if let Some((_, t)) = w.complete_bands().last() {
+            check_restore(w, cx, &Sel::LatestClosed, t, 0, "C03/latest-complete-version", n)?;
+        }
+    }
+
     // (4) the interrupted version
     let new_id = post.bands.keys().copied().max().filter(|m| Some(*m) != prev_last && prev_last.map_or(true, |p| *m > p));
     if let Some(new_id) = new_id {
